@@ -312,6 +312,14 @@ def gen_cases(tier: str, seed: int) -> List[Dict]:
     for shape, karr in powarr_cases:
         a = poly("a", rng.choice([("q0",), ("q0", "q1")]), shape, 1, 4, mode="raw")
         add("pow", [a], ["powarr", 0, karr], tag="-arr%dd" % numpy.array(karr).ndim)
+    # names stored out of index order on the left (the in-place spelling writes the product's keys into that operand)
+    for op in ("mul", "add", "sub"):
+        for shape in [(2,), ()]:
+            a = S.make_poly_spec("a", ("q1", "q0"), [[0, 0], [1, 3], [2, 2], [3, 1]], shape, rng, 3, zero_prob=0.0, literal_prob=0.3, mode="raw")  # (exponent rows closed under swapping the columns)
+            b = S.make_poly_spec("b", ("q0", "q1"), [[0, 0]], (), rng, 1, zero_prob=0.0, literal_prob=0.0, mode="raw")
+            for sp in (a, b):
+                sp.pop("pre", None)
+            add(op, [a, b], [op, 0, 1], tag="-unsorted-left")
     # exponents that are constant polynomials: tidy, storing an all-zero non-constant term before / after the constant, 0-d and arrays
     for shape, kshape, ks in [((2,), (2,), [2, 3]), ((), (), [2]), ((2,), (), [3]), ((1, 2), (2,), [0, 2])]:
         for kexps in ([[0]], [[1], [0]], [[0], [2]], [[0, 1], [0, 0], [1, 0]]):
